@@ -19,7 +19,7 @@
 From Coq Require Import List NArith ZArith Bool Sorted Permutation.
 From Mamba Require Import Dawg.Model Dawg.Tree Dawg.Spec Dawg.SearchModel Dawg.SearchSpec.
 From Mamba Require Import Dawg.SearchPattern Dawg.SearchAnagram Dawg.SearchProofs Dawg.SearchConcrete.
-From Mamba Require Import Dawg.SearchWf Dawg.SearchMain.
+From Mamba Require Import Dawg.SearchWf Dawg.SearchMain Dawg.SearchCount.
 Import ListNotations.
 
 (* The property for arbitrary searchers under the contract.  For every well-formed Dawg, every
@@ -72,6 +72,13 @@ Theorem C13_anagram_accepts : forall anagram blank tmp, Permutation tmp anagram 
                                  Permutation w (letters_of anagram blank ++ fill)).
 Proof. exact new_anagram_searcher_from_spec. Qed.
 Print Assumptions C13_anagram_accepts.
+
+(* The rearrangement relation in executable counting form: equal lengths, and the letters of
+   w not covered by the anagram's letters are at most as many as its blanks. *)
+Theorem C13_anagram_counting : forall anagram blank w,
+  matches_anagramb anagram blank w = true <-> matches_anagram anagram blank w.
+Proof. exact matches_anagramb_iff. Qed.
+Print Assumptions C13_anagram_counting.
 
 (* The model's constructors (insertion sort with the comparator reading the original slice,
    the `i > 1` test as written) never panic and build such objects. *)
@@ -157,3 +164,9 @@ Proof.
   apply (Permutation_cons_app [115]%N [] 112%N).
   apply (Permutation_cons_app [] [] 115%N). constructor.
 Qed.
+
+Example C13_anagram_counting_nonvacuous :
+  matches_anagramb [115; 112; 111; 63]%N 63%N [116; 111; 112; 115]%N = true /\
+  matches_anagramb [115; 112; 111; 63]%N 63%N [116; 97; 112; 115]%N = false /\
+  matches_anagramb [97; 97]%N 97%N [98; 116]%N = true.
+Proof. vm_compute. repeat split. Qed.
